@@ -340,6 +340,9 @@ def h_mi(env, centres, order, overrides, shuffle_seed=0, str_keys=True, canary=N
         env.check_eq(got_u, reference(Eeff), f"mi_summation with user energies {sorted(user)} (n={n}, order={order}) == reference with replaced energies")
         if order == n:
             env.check_eq(got_u, Eeff[full], f"mi_summation with user energies at full order == (replaced) energy of the complete fragment")
+        if canary is None:
+            # user-provided energies are for that call only: the stored energies answer the next default call
+            env.check_eq(helper.mi_summation(), reference(E), f"mi_summation() after a call with user energies (n={n}, order={order}) == summation of the stored energies")
 
 
 # ---------------------------------------------------------------- shapes
